@@ -1,5 +1,6 @@
 """ENC rules: path facts of the two indexed encoders and of SpecialOperand against the MC6809 post-byte tables."""
 import ast
+import re
 
 from ..model import U, AnalysisError
 from ..absint import Interp, Ctor, Bits, Lin, Const, Opq, PathCap, candidates, parse_atom, strip_ver
@@ -623,3 +624,142 @@ def enc5(ctx, c):
 
 
 RULES["ENC-5"] = enc5
+
+
+# ---------------------------------------------------------------------------------------------------
+# ENC-7 operand classification: cascade order constraints, prefix -> mode, Unknown -> Direct/Extended resolution
+
+CASCADE_CONSTRAINTS = [
+    ("PseudoOperand", "*", "directive operands (strings, lists) must never be tried as CPU operands"),
+    ("SpecialOperand", "InherentOperand", "PSHS/TFR without operand must report the missing registers, not assemble as inherent"),
+    ("ExtendedIndexedOperand", "IndexedOperand", "`[5,X]` is also a left,right pair; the bracketed form must be recognised first"),
+    ("IndexedOperand", "UnknownOperand", "`5,X` must not fall through to the direct/extended fallback"),
+    ("ImmediateOperand", "UnknownOperand", "`#5` parses as a value with IMMEDIATE mode; the fallback would make it a memory operand"),
+    ("RelativeOperand", "UnknownOperand", "a branch target is not a memory operand"),
+    ("InherentOperand", "UnknownOperand", "an empty operand is not a value"),
+]
+
+
+def enc7(ctx, c):
+    repo = ctx.repo
+    fn = repo.method("Operand", "create_from_str", inherited=False)
+    where = repo.loc(fn, fn.node)
+    order = []
+    for st in ast.walk(fn.node):
+        if isinstance(st, ast.Try):
+            for x in st.body:
+                if isinstance(x, ast.Return) and isinstance(x.value, ast.Call) and U(x.value.func).endswith("Operand"):
+                    order.append((U(x.value.func), st))
+    names = [n for n, _ in sorted(order, key=lambda kv: kv[1].lineno)]
+    c.floor("operand classes tried by create_from_str", len(names), 6)
+    for a, b, why in CASCADE_CONSTRAINTS:
+        if a not in names:
+            c.finding("create_from_str:%s" % a, "class never tried", "Operand.create_from_str never tries %s" % a, where)
+            continue
+        if b == "*":
+            c.check(names[0] == a, "create_from_str:%s first" % a, "tried first", "tried at position %d" % names.index(a), "%s must be tried first: %s" % (a, why), where)
+        elif b in names:
+            c.check(names.index(a) < names.index(b), "create_from_str:%s<%s" % (a, b), "%s before %s" % (a, b), "%s is tried before %s" % (b, a),
+                    "Operand.create_from_str tries %s before %s: %s" % (b, a, why), where)
+    # every attempt passes the operand text and the instruction, and only OperandTypeError means "try the next class"
+    for n, st in order:
+        call = st.body[0].value
+        args = [U(a) for a in call.args]
+        ps = [p for p in fn.params if p not in ("self", "cls")]
+        c.check(args == ps[:2], "create_from_str:%s:args" % n, "(operand text, instruction)", "called with %s" % args, "%s is constructed with %s" % (n, args), repo.loc(fn, st))
+        hs = [U(h.type) if h.type is not None else "bare" for h in st.handlers]
+        c.check(hs == ["OperandTypeError"], "create_from_str:%s:handler" % n, "falls through on OperandTypeError only", "handlers %s" % hs,
+                "create_from_str moves on from %s on %s: other errors must surface as diagnostics, and OperandTypeError must not be swallowed more widely" % (n, hs), repo.loc(fn, st))
+    last = fn.node.body[-1]
+    c.check(isinstance(last, ast.Raise), "create_from_str:exhausted", "raises when no class accepts", "no raise at the end", "create_from_str returns None when no class accepts the operand", where)
+    # Unknown -> Direct / Extended
+    rs = repo.method("Operand", "resolve_symbols", inherited=False)
+    wr_ = repo.loc(rs, rs.node)
+    try:
+        outs = Interp(rs.node).run()
+    except PathCap as e:
+        c.undecided("Operand.resolve_symbols", "path-cap", str(e), wr_)
+        outs = []
+    seen = set()
+    for o in outs:
+        if o.kind != "return":
+            continue
+        ta, fa = o.path.true_atoms(), o.path.false_atoms()
+        v = o.value
+        desc = v.cls if isinstance(v, Ctor) else repr(v)
+        unknown = "self.is_unknown()" in ta
+        numeric = "self.value.is_numeric()" in ta
+        direct = "self.value.is_direct()" in ta or "old_value.is_explicit_direct()" in ta
+        key = (unknown, numeric and direct, desc)
+        if key in seen:
+            continue
+        seen.add(key)
+        if not unknown:
+            c.check(desc == "<self>", "Operand.resolve_symbols:known", "classified operands keep their class", "returns %s" % desc, "resolve_symbols turns an already classified operand into %s" % desc, wr_)
+        elif numeric and direct:
+            good = isinstance(v, Ctor) and v.cls == "DirectOperand" and len(v.args) == 3 and isinstance(v.args[2], Ctor) and v.args[2].cls == "DirectNumericValue" \
+                and len(v.args[2].args) == 1 and re.fullmatch(r"<self\.value(@\d+)?\.int>", repr(v.args[2].args[0])) is not None
+            c.check(good, "Operand.resolve_symbols:direct", "DirectOperand with the value as one byte", "returns %s" % repr(v)[:80],
+                    "a numeric value that is direct (or written with <) must become DirectOperand(DirectNumericValue(value)); resolve_symbols returns %s" % repr(v)[:100], wr_)
+        else:
+            good = isinstance(v, Ctor) and v.cls == "ExtendedOperand" and repr(v.kw.get("value")) == repr(o.path.env.get("self.value"))
+            c.check(good, "Operand.resolve_symbols:extended", "ExtendedOperand with the resolved value", "returns %s" % repr(v)[:80],
+                    "any other unclassified operand must become ExtendedOperand(value=resolved value); resolve_symbols returns %s" % repr(v)[:100], wr_)
+    t = U(rs.node)
+    c.check("self.value = self.value.resolve(symbol_table)" in t and "old_value = self.value" in t, "Operand.resolve_symbols:resolve", "the value is resolved against the symbol table first", "shape changed",
+            "Operand.resolve_symbols does not resolve its value before classifying", wr_)
+    # prefixes -> explicit modes
+    cf = repo.method("Value", "create_from_str", inherited=False)
+    wc = repo.loc(cf, cf.node)
+    want = {"<": "EXPLICIT_DIRECT", ">": "EXPLICIT_EXTENDED", "#": "IMMEDIATE"}
+    got = {}
+    for n in ast.walk(cf.node):
+        if isinstance(n, ast.If) and isinstance(n.test, ast.Call) and U(n.test.func).endswith(".startswith") and n.test.args:
+            from ..consteval import try_fold
+            ch = try_fold(n.test.args[0])
+            for x in n.body:
+                if isinstance(x, ast.Assign) and U(x.targets[0]) == "mode":
+                    got[ch] = U(x.value).split(".")[-1]
+    for ch, md in want.items():
+        c.check(got.get(ch) == md, "Value.create_from_str:prefix %s" % ch, md, "prefix %s -> %s" % (ch, got.get(ch)), "the operand prefix %s selects %s, it must select %s" % (ch, got.get(ch), md), wc)
+    strip = any(isinstance(n, ast.Assign) and U(n.targets[0]) == "value" and U(n.value) == "value[1:]" for n in ast.walk(cf.node))
+    c.check(strip, "Value.create_from_str:strip", "the prefix character is removed", "prefix kept", "the prefix character is not removed before the value is parsed", wc)
+    hint = [n for n in ast.walk(cf.node) if isinstance(n, ast.If) and "is_16_bit" in U(n.test)]
+    ok = bool(hint) and any(isinstance(x, ast.Assign) and U(x.targets[0]) == "size_hint" and try_fold(x.value) == 4 for x in hint[0].body)
+    c.check(ok, "Value.create_from_str:16-bit", "16-bit instructions give numeric operands 4 hex digits", "shape changed", "Value.create_from_str does not widen numeric operands of 16-bit instructions", wc)
+    tries = []
+    for st in ast.walk(cf.node):
+        if isinstance(st, ast.Try):
+            for x in st.body:
+                if isinstance(x, ast.Return):
+                    for y in ast.walk(x.value):
+                        if isinstance(y, ast.Call) and U(y.func).endswith("Value"):
+                            tries.append((st.lineno, U(y.func)))
+                            break
+    vorder = [n for _, n in sorted(tries)]
+    core = [n for n in vorder if n in ("ExpressionValue", "LeftRightValue", "NumericValue", "SymbolValue")]
+    c.check(core == ["ExpressionValue", "LeftRightValue", "NumericValue", "SymbolValue"], "Value.create_from_str:order", "expression, left/right, number, symbol", "order %s" % core,
+            "Value.create_from_str tries %s; a number must be tried before a symbol (digits are symbol characters) and an expression before both" % core, wc)
+    # the two indexed classes resolve their offset by the same steps
+    steps = {}
+    for cls in ("IndexedOperand", "ExtendedIndexedOperand"):
+        f = repo.method(cls, "resolve_symbols", inherited=False)
+        t = U(f.node)
+        st = []
+        m = re.search(r"self\.left = Value\.create_from_str\(([^\n]*)\)", t)
+        st.append("parse(%s)" % (m.group(1) if m else "?"))
+        st.append("symbol->resolve" if re.search(r"if self\.left\.is_symbol\(\):\s+self\.left = self\.left\.resolve\(symbol_table\)", t) else "symbol:?")
+        mm = re.search(r"if (self\.left\.is_address_expression\(\) or self\.left\.is_expression\(\)|self\.left\.is_expression\(\) or self\.left\.is_address_expression\(\)):\s+self\.left = self\.left\.resolve\(symbol_table\)", t)
+        st.append("expression->resolve" if mm else "expression:?")
+        acc = sorted(set(re.findall(r"'([ABD])'", t)))
+        st.append("accumulators=%s" % "".join(acc))
+        steps[cls] = st
+    a, b = steps["IndexedOperand"], steps["ExtendedIndexedOperand"]
+    if any(x.endswith("?") for x in a + b):
+        c.undecided("indexed resolve_symbols", "steps-not-recognised", "%s / %s" % (a, b), repo.cls("IndexedOperand").module.rel)
+    else:
+        c.check(a == b and a[0] == "parse(self.left, self.instruction, default_mode_extended=False)" and a[3] == "accumulators=ABD", "indexed resolve_symbols", " ; ".join(a), "direct %s / indirect %s" % (a, b),
+                "the two indexed operand classes resolve a symbolic offset differently: %s versus %s" % (a, b), repo.cls("IndexedOperand").module.rel)
+
+
+RULES["ENC-7"] = enc7
